@@ -485,35 +485,49 @@ class C06(Spec):
     harness_flags = ('-Wl,--wrap=free',)
     harness_timeout = 300
     technique = ('Lean 4 proof by induction over histories with a nested induction over destructor cascades (source-derived switches regenerated each run): model of '
-                 'GC_Set/GC_Rem/GC_Rem_Ptr/GC_Sweep/GC_Del/del_by/Box_Del with ledger; differential check of the model against '
+                 'GC_Set/GC_Rem/GC_Rem_Ptr/GC_Sweep/GC_Del/alloc_by/dealloc/del_by/Box_Del and of destructors that allocate (nested collections on the '
+                 'collector\'s one pending list) with ledger; differential check of the model against '
                  'the real collector (destructor ledger, pending list, registry) on generated histories')
-    level_text = ('Theorems C06_exactly_once / C06_no_double / C06_collect_respects_marks: for every history of new/new_root/new_raw, '
-                  'del/del_root/del_raw, ownership links, collections with any marked set and any slot order, and teardown, the model of '
+    level_text = ('Theorems C06_exactly_once(_alloc) / C06_no_double_partial / C06_collect_respects_marks: for every history of new/new_root/new_raw, '
+                  'alloc/alloc_root/alloc_raw, del/del_root/del_raw, dealloc_raw(destruct), ownership links, collections with any marked set and any '
+                  'slot order, and teardown, in which no destructor allocates, the model of '
                   'the collector finalises and releases every object exactly once (collector running; roots and raws deleted by the program), '
-                  'never twice under any history including stop/start windows, and never an object of the marked set of the collection. '
+                  'never twice under any such history including stop/start windows, and never an object of the marked set of the collection '
+                  '(under the sole-ownership obligation). Histories with allocating destructors and dealloc of registered objects are in the '
+                  'history language; on them the full statements are refuted on witnesses (known findings). '
                   'The model is tied to the real GC.c/Alloc.c/Pointer.c by running thousands of histories on both (event sequences, pending '
                   'lists, registry contents, mitems), in main and worker threads, with an independent ledger oracle and ASan.')
     level_note = ('Trusted: Lean kernel; the harness/driver comparison (testing); registry layout is abstract (C17), the mark phase is a '
-                  'parameter (C01). Known finding F23 (new / del_root while the collector is stopped) is excluded from the proved statement '
-                  'and refuted on a witness.')
+                  'parameter (C01). Known findings F23 (new / del_root while the collector is stopped), KF-C06-dtor-alloc (a destructor that '
+                  'allocates: nested collection on the pending list of the sweep in progress) and KF-C06-dealloc-registered (dealloc does not '
+                  'unregister) are excluded from the proved statements by explicit hypotheses and refuted on witnesses.')
     rule = ('histories: (a) random interleavings of new/new_root/new_raw (probe leaves, PBox owners built from the library\'s Box functions at '
             'chosen arena addresses, the library\'s own Box), del/del_root/del_raw of unowned objects, white-box collections with chosen marked sets '
             '(whole ownership trees), GC_Mark+GC_Sweep collections, threshold collections inside new, held-set changes, stop/start windows '
-            '(without new/new_root and without deleting roots while stopped: known finding F23), program deletes its roots and raws, teardown; '
+            '(without new/new_root and without deleting roots while stopped: known finding F23), the alloc+construct route for a fifth of the '
+            'allocations and dealloc_raw(destruct) for a third of the raw deletions, in a third of the arena-only histories leaf objects whose '
+            'destructors allocate one or two objects (histories in which the mirror meets the territory of KF-C06-dtor-alloc — a nested collection, '
+            'an allocation during the teardown sweep — are generated again; such objects are deleted before teardown), program deletes its roots and raws, teardown; '
             'in the main thread (Cello_Exit) and in worker threads (Thread_Init_Run); arena slot windows chosen so that addresses collide modulo the '
             'registry sizes; (b) Box->...->probe chains of depth 2..6 for every way of reclaiming them (forced collection, real mark, explicit del, '
             'teardown) under random address permutations (both pending orders); (c) ownership rings of 1 (a box owning itself), 2, 3, 5 boxes '
-            'built with ref(), also closed at random inside (a), reclaimed by forced collection, real mark, teardown, or explicit del of one member. non-trivial history = at least one destructor-issued del met '
-            'the pending list, the registry, or an already finalised object during a sweep; distinct = distinct history text.')
-    trusted_base = ('translate/g_life.py (regex over GC_Rem_Ptr, GC_Sweep, GC_Set, GC_Rem, GC_Del, Cello_Exit, alloc_by, del_by, Box_Del, Thread_Init_Run)',
+            'built with ref(), also closed at random inside (a), reclaimed by forced collection, real mark, teardown, or explicit del of one member; '
+            '(d) an object whose destructor allocates 1..4 leaves deleted explicitly while 0..5 others are held (the registration inside the destructor '
+            'runs a collection when few objects are registered; harmless outside a sweep). non-trivial history = at least one destructor-issued del met '
+            'the pending list, the registry, or an already finalised object during a sweep, or a destructor allocated; distinct = distinct history text.')
+    trusted_base = ('translate/g_life.py (regex over GC_Rem_Ptr, GC_Sweep, GC_Set, GC_Rem, GC_Del, Cello_Exit, alloc_by, alloc*, dealloc*, del_by, Box_Del, Thread_Init_Run)',
                     'harness/h_life.c + lean/Driver/Life.lean (correspondence is testing): ledger hooks in probe destructors / arena dealloc / --wrap=free',
                     'the registry layout (robin-hood table) is abstracted to a duplicate-free list; slot order is a quantified parameter (C17 covers the layout)',
                     'the mark phase is a quantified parameter: any marked set (C01 covers marking)',
-                    'object identities are never reused within a history in the model (a C address is reused only after free)')
+                    'object identities are never reused within a history in the model (a C address is reused only after free)',
+                    'the collector\'s own tables (entries, freelist) and the per-thread wrapper/TLS/Exception objects are not in the ledger model: covered by ASan and the block accounting of the harness only',
+                    'one collector per theorem; a del issued by another thread is C13_foreign_del (Props/C13.lean)')
     assumptions = ('the program deletes an object at most once and never an object that a live Box owns; each object has at most one owner (ownership may be cyclic: rings of boxes, self-owning boxes; no raw ring members); owners do not own raw objects (known finding F28 of C05)',
-                   'the marked set of a collection is closed under ownership (what the mark phase produces); objects reachable by the program are marked',
+                   'sole ownership (a program obligation, hypothesis hsole of C06_collect_respects_marks): what an unmarked object owns is itself unmarked, i.e. an object the program still reaches is not also owned by garbage — generated marked sets are whole ownership trees; objects reachable by the program are marked',
                    'new/new_root while the collector is stopped and del_root of a root while it is stopped are not generated: known finding F23 (KF-C06-stopped)',
-                   'roots and raw objects are deleted by the program before teardown (documented obligation); destructors do not allocate',
+                   'roots and raw objects are deleted by the program before teardown (documented obligation)',
+                   'known finding KF-C06-dtor-alloc: an object whose destructor allocates is generated only where its destructor runs outside that territory (no nested collection over a non-empty pending list, none in histories that compare pending orders, no allocation during the teardown sweep); the theorems carry NoDtor ops',
+                   'known finding KF-C06-dealloc-registered: dealloc(destruct(x)) is generated for raw objects only (WellFormed: dealloc only of a raw object not yet released)',
                    'single collector per thread; objects are not shared between threads')
     def cases(self, rng, tier, boost=1):
         primes = gc_primes()
